@@ -5,10 +5,10 @@ sys.path.insert(0, os.environ.get("VERIF_REPO", "/repo"))
 sys.path.insert(0, os.path.join(os.path.dirname(__file__), "..", "harness"))
 import numpy as np
 import gen, impl
-rng = np.random.default_rng(5)
-spec = gen.voronoi_tissue(rng, n=150, npts=3)
+rng = np.random.default_rng(11)
+spec = gen.voronoi_tissue(rng, n=int(rng.integers(35, 70)), npts=2)
 bad = []
-for lim in (0.84, 0.87, 0.89):
+for lim in (0.86,):
     fr = impl.frame(spec)
     f = impl.forsys_of({0: fr})
     with impl.quiet():
